@@ -107,6 +107,9 @@ def _ladder(ty):
     if not f:
         return None, None
     layers = []
+    # completeness: every layer of the ladder is one `<<`; a layer written differently (a named constant, another
+    # form of the expression) must make the whole item a miss, not a shorter ladder
+    n_shifts = len(re.findall(r"<<", f.group(1)))
     # ((X & MASK) << S) | ((X >> S) & MASK)
     for st in re.finditer(r"\(\((\w+) & (0x[0-9A-Fa-f]+)%s\) << (\d+)\)\s*\|\s*\(\((\w+) >> (\d+)\) & (0x[0-9A-Fa-f]+)%s\)" % (ty, ty), f.group(1)):
         x1, m1, s1, x2, s2, m2 = st.groups()
@@ -114,6 +117,8 @@ def _ladder(ty):
             return None, None
         layers.append((int(m1, 16), int(s1), int(m2, 16), int(s2)))
     lo = re.search(r"fn lower_of_two\(\) -> %s \{\s*(0x[0-9A-Fa-f]+)%s" % (ty, ty), body)
+    if len(layers) != n_shifts:
+        layers = None
     return layers, (int(lo.group(1), 16) if lo else None)
 
 for _ty in ("u8", "u16", "u32", "u64", "u128"):
@@ -409,9 +414,11 @@ def generate():
     lines = ["/-! GENERATED by tools/extract_consts.py from /repo/src — do not edit. -/", "namespace Gen", ""]
     fallbacks = []
     values = {}
+    # VERIF_T1_PIN: items whose extracted value check.py has rejected (see check.py, `check`): use the pinned value
+    pin = set(x for x in os.environ.get("VERIF_T1_PIN", "").split(",") if x)
     for name, ty, pinned, fn, doc in ITEMS:
         try:
-            v = fn()
+            v = None if name in pin else fn()
         except Exception as e:  # extractor bug = miss
             v = None
         if v is None:
